@@ -225,12 +225,13 @@ Section Routes.
     wire_chase s fuel reqw qt qc cd e = Some l -> exists l', l = e :: l'.
   Proof.
     destruct fuel as [|f]; [discriminate|]. cbn [Model.wire_chase].
-    destruct (e_alias e) as [t|].
-    - destruct (fold_wire_names_equal t reqw); [discriminate|].
-      destruct (serve_wire_exact s t qt qc cd); [|discriminate].
-      destruct (wire_chase s f reqw qt qc cd e0); [|discriminate].
-      intros Hl. inversion Hl. eexists. reflexivity.
-    - intros Hl. inversion Hl. eexists. reflexivity.
+    destruct (negb (e_plain e)); [discriminate|].
+    destruct (e_has_qtype e); [intros Hl; inversion Hl; eexists; reflexivity|].
+    destruct (e_alias e) as [t|]; [|discriminate].
+    destruct (fold_wire_names_equal t reqw); [discriminate|].
+    destruct (serve_wire_exact s t qt qc cd); [|discriminate].
+    destruct (wire_chase s f reqw qt qc cd e0); [|discriminate].
+    intros Hl. inversion Hl. eexists. reflexivity.
   Qed.
 
   Lemma wire_chase_sound (s : store) fuel : forall reqw qt qc cd e l,
@@ -239,7 +240,9 @@ Section Routes.
     wire_chase s fuel reqw qt qc cd e = Some l -> chase_linked qt qc cd l.
   Proof.
     induction fuel as [|f IH]; intros reqw qt qc cd e l Hwf Hs; [discriminate|].
-    cbn [Model.wire_chase]. destruct (e_alias e) as [t|] eqn:Ea.
+    cbn [Model.wire_chase]. destruct (negb (e_plain e)); [discriminate|].
+    destruct (e_has_qtype e); [intros Hl; inversion Hl; constructor|].
+    destruct (e_alias e) as [t|] eqn:Ea; [|discriminate].
     - destruct (fold_wire_names_equal t reqw); [discriminate|].
       destruct (serve_wire_exact s t qt qc cd) as [nxt|] eqn:En; [|discriminate].
       destruct (wire_chase s f reqw qt qc cd nxt) as [l'|] eqn:Ec; [|discriminate].
@@ -253,7 +256,28 @@ Section Routes.
         destruct (lookup_by_key s (H b)) as [e'|] eqn:El; [|discriminate].
         destruct (entry_matches_wire_question e' t qt qc cd); [|discriminate].
         inversion En; subst e'. eapply Hs; eassumption.
-    - intros Hl. inversion Hl. constructor.
+  Qed.
+
+  (* the chase's own gates: every composed segment is a plain NOERROR body (no authority or
+     additional records, re-encodable answer types only) and the chain ends at a record of the
+     requested type *)
+  Lemma wire_chase_plain (s : store) fuel : forall reqw qt qc cd e l,
+    wire_chase s fuel reqw qt qc cd e = Some l ->
+    Forall (fun x => e_plain x = true) l /\
+    exists pre lst, l = pre ++ [lst] /\ e_has_qtype lst = true /\ Forall (fun x => e_has_qtype x = false) pre.
+  Proof.
+    induction fuel as [|f IH]; intros reqw qt qc cd e l; [discriminate|].
+    cbn [Model.wire_chase]. destruct (e_plain e) eqn:Ep; cbn [negb]; [|discriminate].
+    destruct (e_has_qtype e) eqn:Eq.
+    - intros Hl. inversion Hl; subst l. split; [repeat constructor; exact Ep|].
+      exists [], e. repeat split; [exact Eq|constructor].
+    - destruct (e_alias e) as [t|]; [|discriminate].
+      destruct (fold_wire_names_equal t reqw); [discriminate|].
+      destruct (serve_wire_exact s t qt qc cd) as [nxt|]; [|discriminate].
+      destruct (wire_chase s f reqw qt qc cd nxt) as [l'|] eqn:Ec; [|discriminate].
+      intros Hl. inversion Hl; subst l. clear Hl.
+      apply IH in Ec. destruct Ec as [Hall [pre [lst [Hl [Hq Hpre]]]]]. split; [constructor; assumption|].
+      exists (e :: pre), lst. subst l'. repeat split; [exact Hq|constructor; assumption].
   Qed.
 
   (* the Msg-path chase over a store-backed Queryer: every appended hop was admitted for
@@ -269,7 +293,7 @@ Section Routes.
     msg_linked qt qc cd e (msg_chase K K_eqb H s fuel qt qc cd e).
   Proof.
     induction fuel as [|f IH]; intros qt qc cd e; [constructor|].
-    cbn [msg_chase]. destruct (e_alias e) as [tw|] eqn:Ea; [|constructor].
+    cbn [msg_chase]. destruct (e_has_qtype e); [constructor|]. destruct (e_alias e) as [tw|] eqn:Ea; [|constructor].
     destruct (parse_wire tw) as [ls|] eqn:Ep; cbn [option_map]; [|constructor].
     destruct (store_lookup s (mk_q (present ls) qt qc) cd) as [nxt|] eqn:El; [|constructor].
     apply store_lookup_sound in El. destruct El as [Hq Hs]. cbn [q_name q_type q_class] in Hq.
